@@ -9,6 +9,7 @@ import (
 	"io/fs"
 	realfp "path/filepath"
 	"sort"
+	"strings"
 
 	os "github.com/emersion/go-webdav/vsim/simos"
 )
@@ -54,8 +55,76 @@ func EvalSymlinks(path string) (string, error) {
 	return realfp.EvalSymlinks(path)
 }
 
-// Glob is not provided (not used by go-webdav; a change that starts using it
-// fails the harness build and is reported as build trouble).
+// Glob mirrors path/filepath.Glob of the Go distribution, on top of simos (so
+// that every directory it reads passes the disk seam).
+func Glob(pattern string) (matches []string, err error) {
+	if _, err := Match(pattern, ""); err != nil {
+		return nil, err
+	}
+	if !hasMeta(pattern) {
+		if _, err = os.Lstat(pattern); err != nil {
+			return nil, nil
+		}
+		return []string{pattern}, nil
+	}
+	dir, file := Split(pattern)
+	dir = cleanGlobPath(dir)
+	if !hasMeta(dir) {
+		return glob(dir, file, nil)
+	}
+	if dir == pattern {
+		return nil, ErrBadPattern
+	}
+	m, err := Glob(dir)
+	if err != nil {
+		return
+	}
+	for _, d := range m {
+		matches, err = glob(d, file, matches)
+		if err != nil {
+			return
+		}
+	}
+	return
+}
+
+func cleanGlobPath(path string) string {
+	switch path {
+	case "":
+		return "."
+	case string(Separator):
+		return path
+	default:
+		return path[0 : len(path)-1]
+	}
+}
+
+func glob(dir, pattern string, matches []string) (m []string, e error) {
+	m = matches
+	fi, err := os.Stat(dir)
+	if err != nil {
+		return
+	}
+	if !fi.IsDir() {
+		return
+	}
+	names, err := readDirNames(dir)
+	if err != nil {
+		return
+	}
+	for _, n := range names {
+		matched, err := Match(pattern, n)
+		if err != nil {
+			return m, err
+		}
+		if matched {
+			m = append(m, Join(dir, n))
+		}
+	}
+	return
+}
+
+func hasMeta(path string) bool { return strings.ContainsAny(path, `*?[\\`) }
 
 func readDirNames(dirname string) ([]string, error) {
 	f, err := os.Open(dirname)
